@@ -328,7 +328,7 @@ func cmdCheck(argv []string) int {
 			exit = 2
 		}
 		fmt.Printf("harness %s: %s paths=%d obligations=%d discharged=%d trivial=%d violations=%d inconclusive=%d wall=%.1fs\n",
-			h.Name(), st, hr.Paths, hr.Obligations, hr.Discharged, hr.Trivial, len(hr.Violations), len(hr.Inconclusive), m["wall_s"])
+			h.Name(), st, hr.Paths, hr.Obligations, hr.Discharged, hr.Trivial, totalViolations(hr), len(hr.Inconclusive), m["wall_s"])
 		for i, v := range hr.Violations {
 			if i < 10 {
 				fmt.Printf("  violation %s %s site=%s pos=%s detail=%s\n", v.Kind, v.Label, v.Site, v.Pos, v.Detail)
@@ -375,7 +375,7 @@ func (hr *HarnessResult) toJSON() map[string]interface{} {
 	return map[string]interface{}{
 		"name": hr.Name, "paths": hr.Paths, "end_reasons": hr.EndReasons, "instrs": hr.Instrs,
 		"obligations": hr.Obligations, "trivial": hr.Trivial, "discharged": hr.Discharged,
-		"violations": hr.Violations, "inconclusive": hr.Inconclusive,
+		"violations": hr.Violations, "violation_counts": hr.ViolCount, "inconclusive": hr.Inconclusive,
 		"cover_hit": keys(hr.CoverHit), "cover_missing": missingCover, "reach_hit": keys(hr.ReachHit),
 		"assert_seen": hr.AssertSeen, "samples": hr.OblSamples, "sites": keys(hr.SiteSet),
 		"functions": keys(hr.Funcs), "stubs": keys(hr.Stubs), "observations": hr.Observations,
@@ -432,7 +432,7 @@ func (e *Engine) runHarness(h *ssa.Function) *HarnessResult {
 					hr.Inconclusive = append(hr.Inconclusive, fmt.Sprintf("path budget %d exhausted with %d prefixes pending", e.maxPaths, len(queue)))
 					stop = true
 				}
-				if len(hr.Violations) >= 50 {
+				if len(hr.ViolCount) >= 50 { // 50 DISTINCT violated sites: the harness or the code is broken wholesale
 					stop = true
 				}
 				hr.mu.Unlock()
@@ -581,4 +581,12 @@ func (p *Path) makeWitness() {
 		hr.Witnesses = append(hr.Witnesses, w)
 	}
 	hr.mu.Unlock()
+}
+
+func totalViolations(hr *HarnessResult) int {
+	n := 0
+	for _, c := range hr.ViolCount {
+		n += c
+	}
+	return n
 }
